@@ -319,7 +319,10 @@ def handle (op : String) (args : List String) : Option String :=
     | _ => none
   | "c12.holds.image_payload_kept" =>
     match args with
-    | [st, before, after, s1, s2, md] => some (boolStr (st == hs "ok" && before == after && s1 == s2 && md == "true"))
+    -- kind, status, live pixels, reloaded pixels (16-bit RGBA + NRGBA per pixel), artifact pixels of both applications,
+    -- ToMessage bytes of both, first and second save, name/description kept
+    | [_, st, live, reloaded, art1, art2, before, after, s1, s2, md] =>
+      some (boolStr (st == hs "ok" && live == reloaded && art1 == art2 && art1 == live && before == after && s1 == s2 && md == "true"))
     | _ => some "false"
   | "c12.less" => do
     let ((a, b), _) ← (do let a ← pName; let b ← pName; pure (a, b) : P _).run args
